@@ -1,6 +1,7 @@
 package storetrace
 
 import (
+	"errors"
 	"reflect"
 	"bytes"
 	"context"
@@ -29,7 +30,23 @@ func newFakeTicker() *fakeTicker {
 func (f *fakeTicker) Chan() <-chan time.Time { return f.ch }
 func (f *fakeTicker) Stop()                  {}
 func (f *fakeTicker) Done()                  { f.done <- struct{}{} }
-func (f *fakeTicker) Poll()                  { f.ch <- time.Now(); <-f.done }
+func (f *fakeTicker) Poll()                  { f.PollT(time.Hour) }
+
+// PollT triggers one background poll and waits for it; false if no poller took the tick (or
+// never finished) within d.
+func (f *fakeTicker) PollT(d time.Duration) bool {
+	select {
+	case f.ch <- time.Now():
+	case <-time.After(d):
+		return false
+	}
+	select {
+	case <-f.done:
+		return true
+	case <-time.After(d):
+		return false
+	}
+}
 
 var pool = []string{"a", "b", "c", "d/e"}
 
@@ -477,7 +494,9 @@ func (w *world) step() {
 				res = "err"
 			}
 		} else {
-			w.tick.Poll()
+			if !w.tick.PollT(time.Hour) { // virtual time
+				emit("nopoller\tnow=%d", w.clock)
+			}
 			res = "-"
 		}
 		w.svc.mu.Lock()
@@ -499,6 +518,25 @@ func (w *world) step() {
 			}
 		}
 		emit("poll\ttorn=%d\tkind=%s\tnow=%d\tmidpanic=%s\tmid=%s\tsvcbefore=%s\tsvc=%s\tres=%s\treqs=%s\tsnap=%s\twrites=%s", torn, kind, w.clock, b01(midPanic), mid, before, w.svc.state(), res, w.svc.reqs(), snapString(w.st), w.cache.takeWrites())
+	case x == 14 && len(w.hands) > 0: // an updater whose builder rejects the initial value
+		var hs []string
+		for n := range w.hands {
+			hs = append(hs, n)
+		}
+		sortStrings(hs)
+		n := pick(r, hs)
+		res := "ok"
+		func() {
+			defer func() {
+				if p := recover(); p != nil {
+					res = "panic"
+				}
+			}()
+			if _, err := setec.NewUpdater(context.Background(), w.st, n, func([]byte) (int, error) { return 0, errors.New("builder rejects the value") }); err != nil {
+				res = "err"
+			}
+		}()
+		emit("failupd\tn=%s\tnow=%d\tres=%s\tsnap=%s", hx(n), w.clock, res, snapString(w.st))
 	case x < 16: // clock
 		d := pick(r, []int64{1, 5, 11, 100, 3601, 100000})
 		w.clock += d
